@@ -395,3 +395,57 @@ func init() {
 		os.Exit(0)
 	}
 }
+
+func init() {
+	// vsa nilsites: invoke-mode calls on interface types declared in font/opentype/tables, with the origin of the receiver
+	if len(os.Args) > 1 && os.Args[1] == "nilsites" {
+		p := Load(LoadOpts{Dir: repoDir(), Patterns: []string{"./..."}, ModPath: modPath, MinPkgs: 13})
+		tp := p.pkgPath("font/opentype/tables")
+		count := map[string]int{}
+		var lines []string
+		for _, f := range p.ModFns() {
+			for _, b := range f.Blocks {
+				for _, in := range b.Instrs {
+					c, ok := in.(ssa.CallInstruction)
+					if !ok || !c.Common().IsInvoke() {
+						continue
+					}
+					nt, ok := c.Common().Value.Type().(*types.Named)
+					if !ok || nt.Obj().Pkg() == nil || nt.Obj().Pkg().Path() != tp {
+						continue
+					}
+					ch, root := fieldChain(c.Common().Value, 0)
+					org := fmt.Sprintf("%T", root)
+					fs := ""
+					for _, v := range ch {
+						fs += "." + v.Name()
+					}
+					if len(ch) > 0 {
+						own := ""
+						if ch[len(ch)-1].Pkg() != nil {
+							own = ch[len(ch)-1].Pkg().Name()
+						}
+						fs = own + fs
+					}
+					lines = append(lines, fmt.Sprintf("%s\t%s\t%s.%s\t%s\t%s", p.IPos(in), p.FnName(f), nt.Obj().Name(), c.Common().Method.Name(), org, fs))
+					count[nt.Obj().Name()]++
+				}
+			}
+		}
+		sort.Strings(lines)
+		for _, l := range lines {
+			fmt.Println(l)
+		}
+		fmt.Println(count)
+		os.Exit(0)
+	}
+}
+
+func init() {
+	// vsa nil: the nullable fields found by R-NIL and the invoke sites left unprotected
+	if len(os.Args) > 1 && os.Args[1] == "nil" {
+		p := Load(LoadOpts{Dir: repoDir(), Patterns: []string{"./..."}, ModPath: modPath, MinPkgs: 13})
+		newNilAnalysis(p, p.pkgPath("font/opentype/tables")).dump()
+		os.Exit(0)
+	}
+}
